@@ -43,7 +43,6 @@ import DdsModel.Trap
 import DdsModel.TrapEnc
 import DdsModel.Mip
 import DdsModel.Encoder
-import DdsModel.Progress
 namespace Dds.TrapMip
 open Dds Dds.Trap Dds.TrapEnc
 
@@ -410,15 +409,15 @@ def toGenSeedT (e : Enc) (_s : SurfInfo) : Option Nat :=
 
 /-- `get_level_progress_range(level)` (encoder.rs:178–190) and the `sub_range` built from it: `level as i32 + 1`
 (plain `i32` addition) and `ProgressRange::from_to`'s `debug_assert!(from <= to)`, over exact rationals
-(`Progress.levelRange`; binary32 rounding of `powi` is outside the model) -/
-def levelRangeT (toGen level : Nat) : Option ProgressRange :=
-  if toGen = 0 then pure .full
+(the values are `Progress.lean`'s `levelRange`, C17; binary32 rounding of `powi` is outside the model) -/
+def levelRangeT (toGen level : Nat) : Option Unit :=
+  if toGen = 0 then pure ()                                             -- `ProgressRange::FULL`
   else do
     let _ ← ckI32 ((level : Int) + 1)                                   -- :187
     let a : Rat := 1 - (2 / 5 : Rat) ^ level
     let b : Rat := 1 - (2 / 5 : Rat) ^ (level + 1)
     dbgP (a ≤ b)                                                        -- progress.rs:32
-    pure (.fromTo a b)
+    pure ()
 
 /-- the callback of `generate` (encoder.rs:223–234) for the `n` generated levels: `level += 1` on a `u8` counter,
 then that level's progress range -/
